@@ -114,6 +114,14 @@ class Store:
                                               # another task has open for writing
         self.max_delay_until = 0.0
 
+    def note_preexisting(self, paths):
+        """Entries that existed before the run, in the order they were created (a dataset put
+        there by the harness): a stale listing is an EARLIER view, so it may lack the latest."""
+        for q in paths:
+            q = self.check(q)
+            if q not in self.recent_created:
+                self.recent_created.append(q)
+
     # -- helpers
     def rel(self, path):
         if isinstance(path, (list, tuple)):
@@ -282,7 +290,7 @@ class SimFS(AbstractFileSystem):
                                      f"{op} {rel}")
         if kind == "STALE":
             st.fire("STALE")
-            st.stale_now = True
+            st.stale_now = int(fault[1] or 1)     # how many of the latest entries are missing
             _tls.depth = depth + 1
             try:
                 return do()
@@ -389,7 +397,8 @@ class SimFS(AbstractFileSystem):
             here = [c for c in st.recent_created if os.path.dirname(c) == p
                     and any(i["name"] == c for i in infos)]
             if here:
-                infos = [i for i in infos if i["name"] != here[-1]]
+                lag = set(here[-int(st.stale_now):])
+                infos = [i for i in infos if i["name"] not in lag]
             gone = [(q, inf) for q, inf in st.recent_removed if os.path.dirname(q) == p
                     and not os.path.exists(q)]
             if gone and not any(i["name"] == gone[-1][0] for i in infos):
